@@ -186,6 +186,25 @@ func (n *StreamNet) DialFunc(home string) conn.AddrDialFunc {
 	}
 }
 
+// Inbound makes the transport r (which should be the one serving addr) open a
+// connection TO the node whose conn transport is `to` (home address toHome):
+// the node sees an incoming connection from addr, r dials it without a peer
+// constraint. The connection belongs to the binding of addr (a later Serve
+// resets it). The returned channel yields r's result of the handshake.
+func (n *StreamNet) Inbound(ctx context.Context, addr string, r *StreamRemote, to *conn.Transport, toHome string) <-chan error {
+	a, b := NewPipe()
+	n.mu.Lock()
+	n.open[addr] = append(n.open[addr], a)
+	n.mu.Unlock()
+	res := make(chan error, 1)
+	go func() { _, _ = to.HandleConn(ctx, false, b, Addr(addr), "") }()
+	go func() {
+		_, err := r.Tpt.HandleConn(r.ctx, true, a, Addr(toHome), "")
+		res <- err
+	}()
+	return res
+}
+
 // ConnOpts are the conn transport options used everywhere (1 s idle timeout).
 func ConnOpts() *conn.Opts {
 	return &conn.Opts{Quic: &transport_quic.Opts{MaxIdleTimeoutDur: "1s"}}
